@@ -24,7 +24,9 @@ def main():
             if m.get('revert'):
                 subprocess.check_call(['patch', '-R', '-p1', '-s', '-i', os.path.join(HERE, 'fixes', m['revert'] + '.patch')], cwd=d)
             if m.get('patch'):
-                subprocess.check_call(['patch', '-p1', '-s', '-i', os.path.join(VERIF, m['patch'])], cwd=d)
+                pf = os.path.join(VERIF, m['patch'])
+                if not os.path.exists(pf) or subprocess.call(['patch', '-p1', '-s', '-i', pf], cwd=d) != 0:
+                    print('MUTANT-STALE %s: patch %s missing or does not apply' % (m['name'], m['patch'])); ok = False; continue
             for (path, old, new) in m.get('edits', []):
                 fp = os.path.join(d, path)
                 s = open(fp).read()
